@@ -78,6 +78,13 @@ func (k Keeper) RouteExactAmountOut(ctx sdk.Context,
 	for i, route := range routes {
 		_tokenOut := tokenOut
 
+		// the output of every pool but the last one is the input of the next swap, which is taken from
+		// the sender: it goes to the sender, only the final output goes to the recipient
+		actualRecipient := sender
+		if i == len(routes)-1 {
+			actualRecipient = recipient
+		}
+
 		// If there is one pool left in the route, set the expected output of the current swap
 		// to the estimated input of the final pool.
 		if i != len(routes)-1 {
@@ -106,7 +113,7 @@ func (k Keeper) RouteExactAmountOut(ctx sdk.Context,
 		// Calculate the total discounted swap fee
 		totalDiscountedSwapFee = totalDiscountedSwapFee.Add(swapFee)
 
-		_tokenInAmount, swapErr := k.InternalSwapExactAmountOut(ctx, sender, recipient, pool, route.TokenInDenom, insExpected[i], _tokenOut, swapFee)
+		_tokenInAmount, swapErr := k.InternalSwapExactAmountOut(ctx, sender, actualRecipient, pool, route.TokenInDenom, insExpected[i], _tokenOut, swapFee)
 		if swapErr != nil {
 			return math.Int{}, math.LegacyZeroDec(), math.LegacyZeroDec(), swapErr
 		}
